@@ -227,6 +227,24 @@ func (c *closable) Read(p []byte) (int, error) {
 }
 func (c *closable) Close() error { c.closed = true; return nil }
 
+// respBody is a response body that cannot be read once it was closed (what a real
+// connection does); the response a call returns must still be readable.
+type respBody struct {
+	mu     sync.Mutex
+	r      *strings.Reader
+	closed bool
+}
+
+func (b *respBody) Read(p []byte) (int, error) {
+	b.mu.Lock()
+	defer b.mu.Unlock()
+	if b.closed {
+		return 0, errors.New("verif: read on closed response body")
+	}
+	return b.r.Read(p)
+}
+func (b *respBody) Close() error { b.mu.Lock(); b.closed = true; b.mu.Unlock(); return nil }
+
 type tempErr struct{}
 
 func (tempErr) Error() string   { return "verif: temporary failure in name resolution" }
@@ -312,7 +330,7 @@ func (s *server) RoundTrip(req *http.Request) (*http.Response, error) {
 			h = http.Header{}
 		}
 		return &http.Response{StatusCode: status, Status: fmt.Sprintf("%d %s", status, http.StatusText(status)), Proto: "HTTP/1.1", ProtoMajor: 1, ProtoMinor: 1,
-			Header: h, Body: io.NopCloser(strings.NewReader("{}")), ContentLength: 2, Request: req}, nil
+			Header: h, Body: &respBody{r: strings.NewReader("{}")}, ContentLength: 2, Request: req}, nil
 	}
 	switch sym {
 	case "401basic":
@@ -448,8 +466,19 @@ func runStackInner(c StackCase) (res vt.Result, fail *vt.Fail) {
 		req.ContentLength = 0
 	}
 	resp, derr := do(req)
+	var unusable string
 	if resp != nil {
+		if derr == nil {
+			// "the call stops with the last response": a response that is handed back is
+			// one the caller can still read
+			if b, rerr := io.ReadAll(resp.Body); rerr != nil || string(b) != "{}" {
+				unusable = fmt.Sprintf("the returned response (status %d) cannot be read: body %q, err %v (script %v, body kind %s, layer %s)", resp.StatusCode, b, rerr, c.Script, c.BodyKind, c.Layer)
+			}
+		}
 		resp.Body.Close()
+	}
+	if unusable != "" {
+		return res, vt.Failf("C17/returned-response-unusable", "%s", unusable)
 	}
 	srv.mu.Lock()
 	atts := append([]attempt(nil), srv.attempts...)
